@@ -346,7 +346,7 @@ func Check() *common.Check {
 		Level: "exploration",
 		// every case is recorded before it runs: a fatal error or a hang of the worker is attributed to it
 		CrashSafe: true,
-		Rule: "inputs: every single-token deletion, duplication and replacement (13 tokens, one of every lexical kind) of a spread of 300 (quick) / 2000 (thorough) sqlgen statements; every number position of every clause-option / DML / DDL statement x 10 number forms and magnitudes (0, 2^63-1, 2^63, 20 digits, fraction, exponent, sign, leading zeros, hex, overflowing exponent); all fragment strings of length <=3 (quick) / <=4 (thorough) over lexgen's 37-fragment lexical alphabet (bad escapes, unterminated literals, lone punctuation, control bytes); " +
+		Rule: "inputs: every single-token deletion, duplication and replacement (13 tokens, one of every lexical kind) of a spread of 300 (quick) / 2000 (thorough) sqlgen statements; every ordered pair of 7 inputs without a statement (empty, blank, comments, semicolons; one and several lines) in one case; every number position of every clause-option / DML / DDL statement x 10 number forms and magnitudes (0, 2^63-1, 2^63, 20 digits, fraction, exponent, sign, leading zeros, hex, overflowing exponent); all fragment strings of length <=3 (quick) / <=4 (thorough) over lexgen's 37-fragment lexical alphabet (bad escapes, unterminated literals, lone punctuation, control bytes); " +
 			"nesting beyond the depth limit in 6 constructs; an input one byte over the size limit; each through 10 failing-capable entry points; every input the parser (not the tokenizer) rejects is also run as a history: rejected input, a statement exactly at the nesting limit, the rejected input again - on one Parser object, and with five other calls in between (ParseContext under a context done at entry / with a passed deadline / cancelled mid-statement, a recovering parse, a parse without positions) and (first two) inside one recovery call. every input the tokenizer rejects is also run as a lexical history: one Tokenizer object (held, or handed on by the pool) tokenizes one of 5 primers through Tokenize / TokenizeContext and then the input, bare and behind two paddings, through both. distinct = distinct input text; non-trivial = at least one entry point rejects the input",
 		Assume: []string{"stage of a failure = whether tokenizer.Tokenize alone rejects the input", "message template = message with quoted/numeric parts removed, first five words before the first colon"},
 		Enumerate: func(e *common.Enum) {
@@ -388,6 +388,19 @@ func Check() *common.Check {
 						sql := sqlgen.Render(rep, sqlgen.LLines)
 						e.Do("corrupt|"+sql, func(c *common.Ctx) { checkInput(c, sql, "corrupt") })
 					}
+				}
+			}
+			// inputs without any statement (empty, blank, comments, semicolons; one line and several): each alone, and every
+			// ordered pair in one case - what the first leaves behind anywhere in the process (a shared error value, a cache)
+			// must not show in the code, message or location reported for the second
+			stmtless := []string{"", " ", ";", "\n\n\n\n;", "-- a\n-- b\n\n", "/* c */\n\n  ;;\n", "\t\n;\n\n\n\n\n"}
+			for _, a1 := range stmtless {
+				for _, b1 := range stmtless {
+					a1, b1 := a1, b1
+					e.Do(fmt.Sprintf("stmtless|%q|%q", a1, b1), func(c *common.Ctx) {
+						checkInput(c, a1, "statement-less")
+						checkInput(c, b1, "statement-less")
+					})
 				}
 			}
 			// every position that holds a number, in every clause-option / DML / DDL statement (not a spread): counts, sizes,
